@@ -64,7 +64,7 @@ def clause1_drop(ctx, P, cg):
                "subscribers may already have received 'add' for the new element (find_fetchers_for_element notifies one by one) "
                "when it is released here without a compensating 'remove' and without ever being inserted: a replica then holds "
                "an element that does not exist" if v is not None else "no add-then-drop on this release", witness=v.witness() if v else None)
-    ctx.floor("C01.1 R-COMMIT", 2)
+    ctx.floor("C01.1 R-COMMIT", 1)
 
 
 def clause2_pair(ctx, P):
